@@ -229,8 +229,13 @@ C11(op, A, B, wc) ==
        F("C11.out_of_range_ignored", V = {} => B = A)
   ELSE {}
 
+\* boyd_split makes one node per block OF WHICH raising removes all but the head block:
+\* after the pair every original constituent is represented exactly once again
+C04pipeline(op, B, mem) ==
+  IF op.name = "raising" /\ mem.presplit.n > 0
+  THEN F("C04.labels.split_then_raise", SameLabelBag(CNodes(mem.presplit), CNodes(B))) ELSE {}
 Clauses(op, A, B, mem, wc) ==
-  C04(op, A, B) \cup C12(op, A, B) \cup C13(op, A, B) \cup C15(op, A, B) \cup
+  C04(op, A, B) \cup C04pipeline(op, B, mem) \cup C12(op, A, B) \cup C13(op, A, B) \cup C15(op, A, B) \cup
   C05(op, A, B, mem) \cup C14(op, A, B, mem) \cup C11(op, A, B, wc)
 
 NoTree == [n |-> 0, nodes |-> {}]
